@@ -218,6 +218,57 @@ fn run(c: &mut Ctx) {
         }
         run_batch(c, Batch { opts, update: k % 2 == 1, hi, ca, vels }, "vrate_sweep");
     }
+    // critical pairs: component pairs whose track angle lies within 2e-4 deg of a whole degree (where a less
+    // precise atan2 lands on the other side); found by scanning the whole grid with the reference
+    {
+        let mine = c.mine(item);
+        item += 1;
+        if mine {
+            let mut vels = Vec::new();
+            for e in 1..1024i64 {
+                for n in 1..1024i64 {
+                    let th = (e as f64).atan2(n as f64).to_degrees();
+                    let fr = th - th.floor();
+                    if (fr < 2e-4 || fr > 1.0 - 2e-4) && fr != 0.0 {
+                        for s in 0..4u32 {
+                            vels.push(Vel { sub: 1, hdr: 0, s_ew: s & 1, v_ew: e as u32 + 1, s_ns: s >> 1, v_ns: n as u32 + 1, vr_src: 0, s_vr: 0, vr: 5, rsv: 0, s_dif: 0, dif: 0 });
+                        }
+                    }
+                }
+            }
+            vels.truncate(60_000);
+            let (opts, update, hi, ca, _) = c.draw(1, &ctx_strat).into_iter().next().unwrap();
+            run_batch(c, Batch { opts, update, hi, ca, vels }, "near_integer_track");
+        }
+    }
+    // adjacency: each generated velocity squitter directly followed (next line, another aircraft) by a neighbour that
+    // differs in one field (a sign, or a magnitude by one)
+    for _ in 0..c.tier.pick(24usize, 96usize) {
+        let (opts, update, hi, ca, _) = c.draw(1, &ctx_strat).into_iter().next().unwrap();
+        let seeds = c.draw(500, (gen::vel_valid(), 0u32..7));
+        let mine = c.mine(item);
+        item += 1;
+        if !mine {
+            continue;
+        }
+        let mut vels = Vec::with_capacity(1000);
+        for (v, k) in seeds {
+            let mut w = v;
+            match k {
+                0 => w.s_ew ^= 1,
+                1 => w.s_ns ^= 1,
+                2 => w.s_vr ^= 1,
+                3 => w.v_ew = if w.v_ew >= 1023 { 1022 } else { w.v_ew + 1 },
+                4 => w.v_ns = if w.v_ns >= 1023 { 1022 } else { w.v_ns + 1 },
+                5 => w.sub = 3 - w.sub,
+                _ => w.vr = if w.vr >= 511 { 510 } else { w.vr + 1 },
+            }
+            vels.push(v);
+            vels.push(w);
+        }
+        let _ = update;
+        run_batch(c, Batch { opts, update: false, hi, ca, vels }, "one_field_neighbour_pairs");
+    }
     // generated combinations
     let nb = c.tier.pick(320usize, 1024usize);
     for _ in 0..nb {
